@@ -26,7 +26,9 @@ Inductive case :=
 (* part B: a client loop run to quiescence on real blocks *)
 | QLoop (birthday tip steps rewound : Z) (final sugg : list sr) (fully : option Z)
 (* part B: WalletRead::chain_height() observed next to the stored rows *)
-| QChain (q : list sr) (h : option Z).
+| QChain (q : list sr) (h : option Z)
+(* part B: after a rewind to [target], a client loop run to quiescence scanned [scanned] blocks *)
+| QRescan (target tip scanned : Z) (final sugg : list sr).
 
 Definition qerr_eqb (a b : qerr) : bool :=
   match a, b with DbConstraint, DbConstraint | OtherErr, OtherErr => true | _, _ => false end.
@@ -47,6 +49,7 @@ Definition run_case (c : case) : bool :=
       list_eqb sr_eqb (suggest_scan_ranges final Historic) sugg &&
       option_eqb Z.eqb (fully_scanned_height final b) fully
   | QChain q h => option_eqb Z.eqb (chain_tip_height q) h
+  | QRescan _ _ _ final sugg => list_eqb sr_eqb (suggest_scan_ranges final Historic) sugg
   end.
 
 (** *** the property on the observations *)
@@ -94,6 +97,7 @@ Definition prop_case (c : case) : bool :=
           | OpScan s e _ _ _ => scan_ok a b s e
           | OpTip _ => tip_ok a b
           | OpTrim h => trim_ok a b h
+          | OpRewind t _ => rewind_ok a b t
           | _ => true
           end &&
           (* suggestions: exactly the rows at or above Historic, highest priority first *)
@@ -105,6 +109,7 @@ Definition prop_case (c : case) : bool :=
   | QChain q h =>
       (* the chain tip is the last height the queue covers *)
       option_eqb Z.eqb (match rows_hi (map row_of q) with Some e => Some (e - 1) | None => None end) h
+  | QRescan target tip scanned final sugg => rescan_ok target tip scanned (map row_of final) (map row_of sugg)
   end.
 
 (** Known-finding class 1: a sequence that contains an empty range (the tree API panics on
@@ -188,7 +193,8 @@ Definition tag_case (c : case) : N :=
   | SplitAt _ _ _ o => match o with Some _ => 9031 | None => 9032 end%N
   | QStep c pre op post _ =>
       (match op with OpTip _ => 10000 | OpScan _ _ [] [] [] => 10100 | OpScan _ _ _ _ _ => 10200
-                | OpRescan _ _ => 10300 | OpTrim _ => 10400 | OpPrune _ _ => 10500 end
+                | OpRescan _ _ => 10300 | OpTrim _ => 10400 | OpPrune _ _ => 10500
+                | OpRewind t _ => match max_scanned c with Some ms => if Z.leb (Z.sub ms t) 99%Z then 10600 else 10700 | None => 10800 end end
        + match post with Ok q' => (if list_eqb sr_eqb q' pre then 0 else 1) | Err _ => 2 | Panic => 3 end
        + (if connected (map row_of pre) (map row_of (queue_after pre post)) then 0 else 10)
        + match op with
@@ -203,4 +209,5 @@ Definition tag_case (c : case) : N :=
          end)%N
   | QLoop _ _ _ rw _ _ _ => if rw =? 0 then 11000%N else 11001%N
   | QChain _ h => match h with Some _ => 12000%N | None => 12001%N end
+  | QRescan _ _ _ _ _ => 13000%N
   end.
